@@ -181,6 +181,24 @@ func selftest(verif string) int {
 		curveTableRule(c, pkg+"."+t.name, "fixture")
 		expect("R-CURVES "+t.name, reported(c) || len(c.Obls) == 0, t.bad)
 	}
+	// R-DEAD
+	for _, t := range []struct {
+		name string
+		bad  bool
+	}{{"(z/zvfixture.Opts).FillBad", true}, {"(*z/zvfixture.Opts).FillOK", false}, {"z/zvfixture.GuardBad", true}, {"z/zvfixture.GuardOK", false}} {
+		if fn := fnOf(t.name); fn != nil {
+			expect("R-DEAD "+short(t.name), len(lostWrites(fn))+len(decidedBranches(fn)) > 0, t.bad)
+		}
+	}
+	// R-ALIAS big.Int copies
+	for _, t := range []struct {
+		name string
+		bad  bool
+	}{{"BigCopyBad", true}, {"BigCopyOK", false}} {
+		if fn := fnOf(pkg + "." + t.name); fn != nil {
+			expect("R-ALIAS "+t.name, len(bigIntCopies(fn)) > 0, t.bad)
+		}
+	}
 	if fails > 0 {
 		fmt.Printf("SELFTEST FAILED: %d engine fixtures gave the wrong verdict\n", fails)
 		return 2
